@@ -143,6 +143,57 @@ theorem C05_selected_iff (regs : List AvsReg) (id : String) (n : Int) (avs : Str
   · rintro ⟨r, ⟨hr, h1, h2⟩, h3⟩; exact ⟨r, hr, h3, h1.symm, h2⟩
   · rintro ⟨r, hr, h3, h1, h2⟩; exact ⟨r, ⟨hr, h1.symm, h2⟩, h3⟩
 
+/-! ## an AVS whose asset list is empty vs. one whose list cannot be read -/
+
+/-- the value list with every entry zeroed, operators and order kept -/
+def zeroed (es : List (String × Opted)) : List (String × Opted) :=
+  es.map (fun e => (e.1, ({ self := 0, total := 0, active := 0 } : Opted)))
+
+theorem opValue_no_assets (assets : List (String × AssetState)) : opValue [] assets = .ok (0, 0) := by
+  induction assets with
+  | nil => rfl
+  | cons a rest ih => obtain ⟨k, st⟩ := a; simp [opValue, find?, ih]
+
+theorem updateLoop_no_assets (m : Int) (opAssets : List (String × List (String × AssetState))) :
+    ∀ es : List (String × Opted), updateLoop [] m opAssets es = .ok (zeroed es, 0) := by
+  intro es
+  induction es with
+  | nil => rfl
+  | cons e rest ih =>
+    obtain ⟨op, o⟩ := e
+    simp only [updateLoop, opValue_no_assets, ih, zeroed, List.map_cons]
+    by_cases hm : m ≤ 0 <;> simp [hm]
+
+/-- EMPTY asset list (GetAVSSupportedAssets returns an empty, non-nil map — `assetsOk`, no asset
+resolved): the code does NOT take the "delete everything" branch; every opted-in operator keeps its
+entry, all three values read zero (the sum over no assets), the AVS value is zero. The entries stay
+in the index that later epoch ends walk, so the values are re-priced once the list is non-empty. -/
+theorem C05_empty_asset_list_zeroes_entries (s : St) (avs : String) (i : AvsIn) (m : Int)
+    (hok : i.assetsOk = true) (hc : i.cfgs = some []) (hm : i.minSelf = some m) :
+    getD (updateVotingPower s avs i).entries avs [] = zeroed (getD s.entries avs []) ∧
+    (getD (updateVotingPower s avs i).entries avs []).map (·.1) = (getD s.entries avs []).map (·.1) ∧
+    getD (updateVotingPower s avs i).avsVal avs 0 = 0 := by
+  simp [updateVotingPower, hok, hc, hm, updateLoop_no_assets, getD_set_same, zeroed, Function.comp_def]
+
+/-- the asset list CANNOT be read (error / nil map): every entry of the AVS and the AVS value are
+deleted, as the code does -/
+theorem C05_unreadable_asset_list_deletes_entries (s : St) (avs : String) (i : AvsIn) (hok : i.assetsOk = false) :
+    updateVotingPower s avs i = { entries := erase s.entries avs, avsVal := erase s.avsVal avs } := by
+  simp [updateVotingPower, hok]
+
+/-- after an epoch end with an empty list, an epoch end with a non-empty list recomputes exactly the
+operators that were opted in before: the round trip loses nobody -/
+theorem C05_empty_then_restored_recomputes (s : St) (avs : String) (i1 i2 : AvsIn) (m1 m2 : Int)
+    (cfgs : List (String × AssetCfg))
+    (h1 : i1.assetsOk = true) (c1 : i1.cfgs = some []) (n1 : i1.minSelf = some m1)
+    (h2 : i2.assetsOk = true) (c2 : i2.cfgs = some cfgs) (n2 : i2.minSelf = some m2)
+    (es' : List (String × Opted)) (v : Int)
+    (hl : updateLoop cfgs m2 i2.opAssets (getD (updateVotingPower s avs i1).entries avs []) = .ok (es', v)) :
+    (getD (updateVotingPower (updateVotingPower s avs i1) avs i2).entries avs []).map (·.1)
+      = (getD s.entries avs []).map (·.1) := by
+  obtain ⟨e0, e1, _⟩ := C05_self_value_formula (updateVotingPower s avs i1) avs i2 cfgs m2 h2 c2 n2 es' v hl
+  rw [e0, e1, (C05_empty_asset_list_zeroes_entries s avs i1 m1 h1 c1 n1).2.1]
+
 /-! ## non-vacuity: two assets (6 / 18 decimals, price decimals 0 / 8), one outside the AVS's list -/
 private def cfgs0 : List (String × AssetCfg) :=
   [("usdt", { price := 1, priceDec := 0, decimals := 6 }), ("eth", { price := 250000000000, priceDec := 8, decimals := 18 })]
